@@ -7,7 +7,7 @@ ROOT = os.path.dirname(os.path.dirname(os.path.abspath(__file__)))
 
 CHECKS = {
     "C01": dict(
-        technique="runtime monitoring: client-boundary history of GLRParser.parse vs an independent character-level chart oracle; SPPF validity walk; GSS monitor counters + logical reduce budget",
+        technique="runtime monitoring: client-boundary history of GLRParser.parse vs an independent character-level chart oracle; SPPF validity walk; GSS monitor counters + logical reduce budget; lock-step walk of every GLR table against the canonical LR(1) automaton of the reference grammar (missing action = rejected sentence); random long sentences (12-30 tokens); neutral spellings of default options",
         text="Exploration: hundreds of thousands of (grammar, table kind, input) executions per run of the real GLR parser, each judged by an independent "
         "derivation chart (sentence <=> forest, non-sentence <=> SyntaxError), every packed alternative and up to 60 trees per forest checked to be derivations "
         "whose leaves read the input. Held on what was explored, not a proof.",
@@ -82,7 +82,7 @@ CHECKS.update({
         ref="5/C10",
     ),
     "C11": dict(
-        technique="runtime monitoring: logical progress monitors (LR configuration repetition, reductions-without-shift bound, recovery stall, GLR reduce/recovery budgets) + span and coverage checks on parser.errors",
+        technique="runtime monitoring: logical progress monitors (LR configuration repetition, reductions-without-shift bound, recovery stall, GLR reduce/recovery budgets) + span and coverage checks on parser.errors; GLR recovery monitor events (recovery over several heads / partial kill / second error before any shift) counted and used to select inputs whose neighbourhood is explored",
         text="Exploration over corrupted sentences and arbitrary strings with junk, default / skipping / injecting strategies, LR and GLR: termination by logical budgets, "
         "in-bounds ordered disjoint spans, trees are derivations over input tokens, LR character coverage exactly once, accepted inputs unchanged and error free.",
         note="KF-C11-1 attributed by the LR monitor signature on non-deterministic tables of nullable/cyclic grammars",
@@ -90,7 +90,7 @@ CHECKS.update({
     ),
     "C12": dict(
         category="fault_enumeration",
-        technique="runtime monitoring with fault injection: operation histories over a grammar directory under a create_load_table/load/save/create monitor and an open() audit hook; byte-prefix truncation and a real writer killed after k bytes; logical mtime clock",
+        technique="runtime monitoring with fault injection: operation histories over a grammar directory under a create_load_table/load/save/create monitor and an open() audit hook; byte-prefix truncation and a real writer killed after k bytes; logical mtime clock; the same for the error-hint cache (.pgec): histories over a directory with error examples, SyntaxError.hint of probe parses vs a cache-free directory",
         text="Fault enumeration: histories {construct under varying options, edit root/import, touch, age the cache, force_create, truncate to k bytes, kill writer after k bytes} - after every "
         "construction the captured table and probe parses must equal a cache-free construction; round trips (serialisable, conflicts, dynamic marks, byte-identical re-save).",
         note="KF-C12-1 attributed only when the monitor saw a load of a file last written under other options whose content equals what those options produce for the current files",
@@ -118,7 +118,7 @@ CHECKS.update({
         ref="5/C15",
     ),
     "C16": dict(
-        technique="runtime monitoring: the same workload recorded in N interpreter processes with different PYTHONHASHSEED and checked offline for identical records",
+        technique="runtime monitoring: the same workload recorded in N interpreter processes with different PYTHONHASHSEED and checked offline for identical records; GSS monitor event 'one new link revisits several processed heads' selects grammars/inputs for the hash-seed batches",
         text="Exploration over grammars whose terminal names reorder under different hash seeds, with R/R and S/R cells and ambiguous forests: table sha256, saved bytes, conflict reports "
         "and to_str() of forest[0..n) identical across 4 (quick) / 16 (thorough) processes and across two constructions in one process.",
         note="children differ only in PYTHONHASHSEED",
